@@ -112,15 +112,30 @@ struct Cell {
 		if((cat == C_LVALUE || cat == C_KEY_PRVALUE_PAYLOAD_LVALUE || payloadIsMutableRef) && !lv.intact()) ctx.fail("caller-lvalue-modified", "the caller's payload lvalue was modified or moved from by dispatch");
 	}
 	template <typename PV> void callOne(PV && p) { d->dispatch(std::forward<PV>(p)); }
-	template <typename F> void withPayload(int pc, Tracked & lv, const Tracked & clv, int pid, F f) {
-		if constexpr (payloadIsMutableRef) { (void)pc; (void)clv; (void)pid; f(lv); }
-		else {
-			if(pc == C_LVALUE || pc == C_KEY_PRVALUE_PAYLOAD_LVALUE) f(lv);
-			else if(pc == C_CONST) f(clv);
-			else if(pc == C_PRVALUE) f(Tracked(pid));
-			else f(std::move(lv));
-		}
+	template <typename F> void withPayload(int pc, Tracked & lv, const Tracked & clv, int pid, F f) { withPayloadImpl(pc, lv, clv, pid, f, std::integral_constant<bool, payloadIsMutableRef>()); }
+	template <typename F> void withPayloadImpl(int, Tracked & lv, const Tracked &, int, F f, std::true_type) { f(lv); }
+	template <typename F> void withPayloadImpl(int pc, Tracked & lv, const Tracked & clv, int pid, F f, std::false_type) {
+		if(pc == C_LVALUE || pc == C_KEY_PRVALUE_PAYLOAD_LVALUE) f(lv);
+		else if(pc == C_CONST) f(clv);
+		else if(pc == C_PRVALUE) f(Tracked(pid));
+		else f(std::move(lv));
 	}
+
+	void callKeyForms(int cat, int pc, int ki, int shownKey, int pid, K & evLv, const K & evClv, K & k2Lv, Tracked & lv, const Tracked & clv, std::false_type) {
+		(void)shownKey; (void)k2Lv;
+
+			if(cat == C_LVALUE || cat == C_KEY_LVALUE_PAYLOAD_MOVE) withPayload(pc, lv, clv, pid, [&](auto && p) { callInclude(evLv, std::forward<decltype(p)>(p)); });
+			else if(cat == C_CONST) withPayload(pc, lv, clv, pid, [&](auto && p) { callInclude(evClv, std::forward<decltype(p)>(p)); });
+			else if(cat == C_PRVALUE || cat == C_KEY_PRVALUE_PAYLOAD_LVALUE) withPayload(pc, lv, clv, pid, [&](auto && p) { callInclude(KeyOps<K>::make(ki), std::forward<decltype(p)>(p)); });
+			else withPayload(pc, lv, clv, pid, [&](auto && p) { callInclude(std::move(evLv), std::forward<decltype(p)>(p)); });
+			}
+	void callKeyForms(int cat, int pc, int ki, int shownKey, int pid, K & evLv, const K & evClv, K & k2Lv, Tracked & lv, const Tracked & clv, std::true_type) {
+
+			if(cat == C_LVALUE || cat == C_KEY_LVALUE_PAYLOAD_MOVE) withPayload(pc, lv, clv, pid, [&](auto && p) { callExclude(evLv, k2Lv, std::forward<decltype(p)>(p)); });
+			else if(cat == C_CONST) withPayload(pc, lv, clv, pid, [&](auto && p) { callExclude(evClv, k2Lv, std::forward<decltype(p)>(p)); });
+			else if(cat == C_PRVALUE || cat == C_KEY_PRVALUE_PAYLOAD_LVALUE) withPayload(pc, lv, clv, pid, [&](auto && p) { callExclude(KeyOps<K>::make(ki), KeyOps<K>::make(shownKey), std::forward<decltype(p)>(p)); });
+			else withPayload(pc, lv, clv, pid, [&](auto && p) { callExclude(std::move(evLv), std::move(k2Lv), std::forward<decltype(p)>(p)); });
+			}
 
 	template <bool Excl>
 	void doDispatchForm(int ki, int cat, std::false_type) {
@@ -132,18 +147,7 @@ struct Cell {
 		Tracked lv(pid); const Tracked clv(pid);
 		std::vector<Seen> seen; g_seen = &seen;
 		int pc = payloadIsMutableRef ? C_LVALUE : cat;
-		if constexpr (!Excl) {
-			if(cat == C_LVALUE || cat == C_KEY_LVALUE_PAYLOAD_MOVE) withPayload(pc, lv, clv, pid, [&](auto && p) { callInclude(evLv, std::forward<decltype(p)>(p)); });
-			else if(cat == C_CONST) withPayload(pc, lv, clv, pid, [&](auto && p) { callInclude(evClv, std::forward<decltype(p)>(p)); });
-			else if(cat == C_PRVALUE || cat == C_KEY_PRVALUE_PAYLOAD_LVALUE) withPayload(pc, lv, clv, pid, [&](auto && p) { callInclude(KeyOps<K>::make(ki), std::forward<decltype(p)>(p)); });
-			else withPayload(pc, lv, clv, pid, [&](auto && p) { callInclude(std::move(evLv), std::forward<decltype(p)>(p)); });
-		}
-		else {
-			if(cat == C_LVALUE || cat == C_KEY_LVALUE_PAYLOAD_MOVE) withPayload(pc, lv, clv, pid, [&](auto && p) { callExclude(evLv, k2Lv, std::forward<decltype(p)>(p)); });
-			else if(cat == C_CONST) withPayload(pc, lv, clv, pid, [&](auto && p) { callExclude(evClv, k2Lv, std::forward<decltype(p)>(p)); });
-			else if(cat == C_PRVALUE || cat == C_KEY_PRVALUE_PAYLOAD_LVALUE) withPayload(pc, lv, clv, pid, [&](auto && p) { callExclude(KeyOps<K>::make(ki), KeyOps<K>::make(shownKey), std::forward<decltype(p)>(p)); });
-			else withPayload(pc, lv, clv, pid, [&](auto && p) { callExclude(std::move(evLv), std::move(k2Lv), std::forward<decltype(p)>(p)); });
-		}
+		callKeyForms(cat, pc, ki, shownKey, pid, evLv, evClv, k2Lv, lv, clv, std::integral_constant<bool, Excl>());
 		g_seen = nullptr;
 		this->check(seen, ki, pid, shownKey, Excl ? "dispatch(event, key, payload)" : "dispatch(key, payload)", cat);
 		bool payloadLvalueKept = (pc == C_LVALUE || pc == C_KEY_PRVALUE_PAYLOAD_LVALUE);
